@@ -40,7 +40,7 @@ Proof. destruct (tick_QC c h now d) as [_ [H _]]. exact H. Qed.
 Lemma tick_SessF c h now d : SessF h (hs (tick c h now d)).
 Proof. apply (QF_fire_due c now TICK_FUEL {| hs := h; dr := d; outs := [] |}). Qed.
 Lemma tick_outs c h now d : Forall quiet_out (outs (tick c h now d)).
-Proof. destruct (tick_QC c h now d) as [_ [_ [l [E F]]]]. rewrite E. exact F. Qed.
+Proof. destruct (tick_QC c h now d) as [_ [_ [[l [E F]] _]]]. rewrite E. exact F. Qed.
 Lemma tick_chall c h now d (P : list (naddr * chall * N) -> Prop) :
   chall_closed P -> P (challenges h) -> P (challenges (hs (tick c h now d))).
 Proof. destruct (tick_QC c h now d) as [H _]. apply H. Qed.
@@ -152,7 +152,7 @@ Proof.
     + pose proof (handle_auth_message_frame c s0 (src, from) n aad sg eph eph_ok rec ct now) as H.
       cbn zeta in H. destruct (chall_get (src, from) (challenges (hs s0))) as [ch |] eqn:Eg.
       * destruct (establish c (fst (src, from)) ch sg eph eph_ok rec) as [se e | |].
-        -- destruct H as [s4 [E4 [_ [_ [_ [[E _] _]]]]]].
+        -- destruct H as [s4 [E4 [_ [_ [_ [_ [[E _] _]]]]]]].
            eapply ChallInv_eq; [exact E |]. eapply ChallInv_remove; [exact E4 | exact H0].
         -- rewrite H. cbn [hs with_hs]. destruct H0 as [H1 H2].
            destruct (chall_get_In _ _ _ Eg) as [d0 Hin].
@@ -249,7 +249,7 @@ Proof.
     + exfalso. eapply Hnone; [exact Eh | exact Eo | |]; rewrite H.
       * apply SessD_same. reflexivity.
       * apply OutsExt_same. reflexivity.
-    + exfalso. destruct H as [_ [HD HO]]. eapply Hnone; eauto.
+    + exfalso. destruct H as [_ [HD [HO _]]]. eapply Hnone; eauto.
   - exfalso. eapply Hnone; [exact Eh | exact Eo | |]; rewrite H.
     + apply SessD_refl.
     + apply OutsExt_refl.
@@ -296,7 +296,7 @@ Proof.
     { intros known Ek. unfold ChallOK in Hok. rewrite Forall_forall in Hok.
       pose proof (Hok _ Hinh) as H1. unfold chall_entry_ok in H1. cbn [fst snd] in H1. rewrite Ek in H1. exact H1. }
     destruct (establish_binds_id _ _ _ _ _ _ _ _ _ Hfix Hk Ee) as [Hid _]. cbn [fst] in Hid.
-    destruct H as [s4 [_ [_ [O4 [_ [_ OM]]]]]].
+    destruct H as [s4 [_ [_ [_ [O4 [_ [_ OM]]]]]]].
     (* classify an output of the whole step *)
     assert (Hcls : forall o, In o out -> quiet_out o \/ est_out e0 (src, from) o \/
               msg_out_ok (hs s4) (src, from) n aad ct o).
@@ -316,7 +316,7 @@ Proof.
     split; [destruct Hin as [Hi | Hi]; [apply HE | apply HU]; exact Hi |].
     split; [intros Hi; apply HU; exact Hi | intros Hi; apply HE; exact Hi].
   - exfalso. eapply Hnone; [exact Eo |]. rewrite H. apply OutsExt_same. reflexivity.
-  - exfalso. destruct H as [_ [_ HO]]. eapply Hnone; eauto.
+  - exfalso. destruct H as [_ [_ [HO _]]]. eapply Hnone; eauto.
 Qed.
 
 Theorem incoming_established_id c h from src n aad sg eph eph_ok rec ct now d h' out e a nid :
@@ -343,12 +343,12 @@ Lemma dispatch_SessD c s0 e now :
 Proof.
   intros He.
   destruct e as [ct rid body | na rid rb | na n known | from p |]; cbn [dispatch].
-  - pose proof (Quiet_send_request c s0 ct true rid body now) as [[_ D] _].
+  - pose proof (Quiet_send_request c s0 ct true rid body now) as [[_ [D _]] _].
     destruct (send_request c s0 ct true rid body now) as [s1 ok]. cbn [fst] in D. destruct ok; exact D.
-  - pose proof (Quiet_send_response c s0 na rid rb) as [[_ D] _]. exact D.
+  - pose proof (Quiet_send_response c s0 na rid rb) as [[_ [D _]] _]. exact D.
   - destruct (send_challenge_frame c s0 na n known now) as [E _]. apply SessD_same. exact E.
   - destruct p as [src n aad ct | n idn seq cd | src n aad sg eph eph_ok rec ct]; try discriminate.
-    pose proof (handle_message_frame c s0 (src, from) n aad ct now) as [[_ D] _]. exact D.
+    pose proof (handle_message_frame c s0 (src, from) n aad ct now) as [[_ [D _]] _]. exact D.
   - apply SessD_refl.
 Qed.
 
@@ -490,7 +490,7 @@ Proof.
   destruct e as [| | | from p |]; try discriminate.
   destruct p as [| n idn seq cd | src n aad sg eph eph_ok rec ct]; try discriminate.
   - cbn [dispatch].
-    destruct (handle_challenge_frame c s0 from n seq cd now) as [[_ D] | [ct [eph [aw [E HN]]]]].
+    destruct (handle_challenge_frame c s0 from n seq cd now) as [[_ [D _]] | [ct [eph [aw [E [HN _]]]]]].
     + left. eapply SessD_trans; [exact TD | exact D].
     + right. eexists. eexists. split; [eapply SessD_F_N; [exact TD | exact TF | exact HN] |].
       split; [reflexivity | split; [reflexivity |]]. exists eph, cd. right.
@@ -499,7 +499,7 @@ Proof.
     pose proof (handle_auth_message_frame c s0 (src, from) n aad sg eph eph_ok rec ct now) as H.
     cbn zeta in H. destruct (chall_get (src, from) (challenges (hs s0))) as [ch |] eqn:Eg.
     + destruct (establish c (fst (src, from)) ch sg eph eph_ok rec) as [se e0 | |] eqn:Ee.
-      * destruct H as [s4 [_ [HN [_ [_ [[_ D] _]]]]]]. right. exists (src, from), se.
+      * destruct H as [s4 [_ [HN [_ [_ [_ [[_ [D _]] _]]]]]]]. right. exists (src, from), se.
         destruct (establish_session _ _ _ _ _ _ _ _ _ Ee) as [Ese _].
         split; [eapply SessD_F_N; [exact TD | exact TF | eapply SessN_D; eauto] |].
         rewrite Ese at 1 2. split; [reflexivity | split; [reflexivity |]].
@@ -566,4 +566,65 @@ Proof.
   apply alist_get_In in Hg. apply (Hi1 _ _ Hg k). unfold sess_keys.
   destruct Hk as [-> | [oe Ho]]; [right; left; reflexivity |].
   rewrite Ho. right; right; right; left; reflexivity.
+Qed.
+
+(* ------------------------------------------------------------------------------------------ *)
+(* at most one session per node address, in every reachable state *)
+
+Lemma dispatch_UPres c s0 e now : UPres (hs s0) (hs (dispatch c s0 e now)).
+Proof.
+  destruct e as [ct rid body | na rid rb | na n known | from p |]; cbn [dispatch].
+  - pose proof (Quiet_send_request c s0 ct true rid body now) as [[_ [_ U]] _].
+    destruct (send_request c s0 ct true rid body now) as [s1 ok]. cbn [fst] in U. destruct ok; exact U.
+  - pose proof (Quiet_send_response c s0 na rid rb) as [[_ [_ U]] _]. exact U.
+  - destruct (send_challenge_frame c s0 na n known now) as [E _]. apply UPres_same. exact E.
+  - destruct p as [src n aad ct | n idn seq cd | src n aad sg eph eph_ok rec ct].
+    + pose proof (handle_message_frame c s0 (src, from) n aad ct now) as [[_ [_ U]] _]. exact U.
+    + destruct (handle_challenge_frame c s0 from n seq cd now) as [[_ [_ U]] | [ct [eph [aw [_ [_ U]]]]]]; exact U.
+    + pose proof (handle_auth_message_frame c s0 (src, from) n aad sg eph eph_ok rec ct now) as H.
+      cbn zeta in H. destruct (chall_get (src, from) (challenges (hs s0))) as [ch |].
+      * destruct (establish c (fst (src, from)) ch sg eph eph_ok rec) as [se e | |].
+        -- destruct H as [s4 [_ [_ [U4 [_ [_ [[_ [_ U]] _]]]]]]]. intros HU. apply U. apply U4. exact HU.
+        -- rewrite H. apply UPres_same. reflexivity.
+        -- destruct H as [_ [_ [_ U]]]. exact U.
+      * rewrite H. intros HU. exact HU.
+  - intros HU. exact HU.
+Qed.
+
+Lemma tick_UPres c h now d : UPres h (hs (tick c h now d)).
+Proof. destruct (tick_QC c h now d) as [_ [_ [_ U]]]. exact U. Qed.
+
+Theorem step_SessUniq c h e now d : SessUniq h -> SessUniq (fst (step c h e now d)).
+Proof.
+  intros HU. rewrite step_eq. cbn [fst]. apply dispatch_UPres. apply tick_UPres. exact HU.
+Qed.
+
+Theorem run_SessUniq c evs : SessUniq (fst (run c init_state evs)).
+Proof.
+  assert (H : forall evs h, SessUniq h -> SessUniq (fst (run c h evs))).
+  { clear evs. intros evs. induction evs as [| [[e now] d] rest IH]; intros h Hi; cbn [run]; [exact Hi |].
+    pose proof (step_SessUniq c h e now d Hi) as H1.
+    destruct (step c h e now d) as [h1 o]. cbn [fst] in H1.
+    specialize (IH h1 H1). destruct (run c h1 rest) as [h2 os]. exact IH. }
+  apply H. constructor.
+Qed.
+
+(* ------------------------------------------------------------------------------------------ *)
+(* C01, contrapositive: a handshake packet whose id-signature is not a term signed by the key of the
+   claimed id (for any challenge data, ephemeral key and destination) has none of the effects, whatever
+   record, ephemeral key, nonce or source address it presents *)
+Corollary no_key_no_effect c h from src n aad sg eph eph_ok rec ct now d h' out :
+  fix_d1 c = true -> ChallOK h ->
+  step c h (EvInbound from (PHs src n aad sg eph eph_ok rec ct)) now d = (h', out) ->
+  (forall cd e dst, sg <> Sig src cd e dst) ->
+  (forall o, In o out -> ~ attributing o) /\ ~ session_changed h h'.
+Proof.
+  intros Hfix Hok Hs Hsg. split.
+  - intros o Hin Ha.
+    destruct (incoming_identity _ _ _ _ _ _ _ _ _ _ _ _ _ _ _ Hfix Hok Hs (or_introl (ex_intro _ o (conj Hin Ha))))
+      as [ch [dl [_ [E _]]]].
+    exact (Hsg _ _ _ E).
+  - intros Hch.
+    destruct (incoming_identity _ _ _ _ _ _ _ _ _ _ _ _ _ _ _ Hfix Hok Hs (or_intror Hch)) as [ch [dl [_ [E _]]]].
+    exact (Hsg _ _ _ E).
 Qed.
